@@ -286,6 +286,44 @@ def gen_imm(rng):
     return (ns, ops, "imm" + cls)
 
 
+def gen_auto(rng, j):
+    """round 4, bare-context embedding: AUTOMATIC collections -- `AK / AC / AE` = the allocation inside the operation finds no free
+    chunk (the harness fills the heap with garbage of the same size first) and sexp_alloc collects there, inside
+    sexp_make_ephemeron for AE, with the operands held by the slots only.  Model: AutoGc.run_sched (request ahist), pinned gate
+    protocol.  Classes: 0 the collection inside make-ephemeron meets NO live ephemeron (fresh context, or the earlier ones dead /
+    already collected), then the key is dropped and collected: must be broken; 1 another ephemeron (live or dead key) is alive at
+    that collection, optionally with a dropped stream port (or one held only as an ephemeron's value); 2 random heap histories with a random subset of the allocations triggering a collection."""
+    cls = j % 3
+    ops = ["N"] if rng.random() < 0.5 else []
+    if cls == 0:
+        ops += rng.choice([[], ["K,5", "K,6", "E,7,5,6", "D,7", "D,5"], ["K,5", "K,6", "E,7,5,6", "D,7", "D,5", "G"],
+                           ["K,5", "I,6,1", "E,7,5,6", "D,5", "G", "D,7"], ["K,5", "AK,6", "AE,7,5,6", "D,7", "D,5", "D,6"]])
+        ops += ["K,0", rng.choice(["K,1", "C,1,0,0", "C,1,9,9", "I,1,%d" % rng.choice(IMM_CODES)]), "AE,2,0,1"]
+        ops += rng.choice([["D,0", "G"], ["D,0", "G", "G"], ["G", "D,0", "G"], ["D,0", "AK,3", "G"], ["D,0", "D,1", "G"],
+                           ["D,2", "D,0", "G"], ["D,0", "AC,3,1,1", "G"]])
+    elif cls == 1:
+        # ... and a stream port dropped before it (must be finalised by the automatic collection), or held only as the value
+        ops += rng.choice([[], ["O,9", "D,9"], ["O,9", "K,10", "E,11,10,9", "D,9", "D,10"], ["O,9", "K,10", "E,11,10,9", "D,9"]])
+        ops += ["K,5", "K,6", "E,7,5,6"] + rng.choice([[], ["D,5"], ["D,6"], ["D,7"]]) + ["K,0", "K,1", "AE,2,0,1", "D,0"]
+        ops += rng.choice([["G"], ["D,5", "G"], ["AK,8", "G"], ["D,5", "AK,8", "D,7", "AK,8", "G"]])
+    else:
+        for _ in range(rng.randrange(4, 14)):
+            a = "A" if rng.random() < 0.4 else ""
+            r = rng.random()
+            if r < 0.3:
+                ops.append("%sK,%d" % (a, rng.randrange(8)))
+            elif r < 0.45:
+                ops.append("%sC,%d,%d,%d" % (a, rng.randrange(8), rng.randrange(8), rng.randrange(8)))
+            elif r < 0.7:
+                ops.append("%sE,%d,%d,%d" % (a, rng.randrange(8), rng.randrange(8), rng.randrange(8)))
+            elif r < 0.9:
+                ops.append("D,%d" % rng.randrange(8))
+            else:
+                ops.append("G")
+        ops.append("G")
+    return (12, ops, "auto%d" % cls)
+
+
 def gen_raw(rng):
     """number-level histories (coq/C16/NumOs.v): descriptors closed by raw INTEGER (YN,i: the fileno object R[i] is not told and
     goes on believing it owns the number), close / dup / dup2 on fileno objects that are already closed (the operations
@@ -615,8 +653,20 @@ def layout_family(ctx, exe, d, thorough, corpus=()):
     lay = list(corpus) + gen_layouts(ctx.rng, thorough) + [gen_frag(ctx.rng) for _ in range(12 if not thorough else 400)]
     # round 3: fresh contexts whose first ephemerons have immediate values / keys; two flagged ports on one socket / pipe end
     lay += [gen_imm(ctx.rng) for _ in range(60 if not thorough else 3000)] + gen_shutdown_scenarios(ctx.rng, True) + gen_refcount_scenarios(ctx.rng, True)
+    # round 4: automatic collections inside operations (inside make-ephemeron's own allocation in particular)
+    lay += [gen_auto(ctx.rng, j) for j in range(90 if not thorough else 3000)]
     addrs = {}
     outer(ctx, exe, d, "embed", lay, cmd=[emb], addrs=addrs)
+    areq = aok = ahist = 0
+    for i, h in enumerate(lay):
+        if h[2].startswith("auto") and "T" in addrs.get(i, {}):
+            ahist += 1
+            aok += addrs[i]["T"][0]
+            areq += addrs[i]["T"][1]
+    ctx.cov["auto_gc_inside_operation"] = "%d of %d requested automatic collections happened exactly inside the operation (%d histories)" % (aok, areq, ahist)
+    if areq == 0 or aok < areq:
+        ctx.broken("auto-gc-generator:C16", "the embedding harness no longer places an automatic collection exactly inside the prefixed "
+                   "operation (%d of %d): the allocator's fit rule or object sizes changed?" % (aok, areq))
     hit, classes = 0, set()
     for i, h in enumerate(lay):
         if len(h) < 4:
@@ -687,6 +737,9 @@ def run_impl_chunk(d, hists, timeout=900, extra_env=None, pre=None, cmd=None, ad
                 _, n, body = (line.split(" ", 2) + [""])[:3]
                 addrs[start + int(n)] = {int(e.split(":")[0], 16): (int(e.split(":")[1]), int(e.split(":")[2]))
                                          for e in body.split(",") if e}
+            elif line.startswith("T ") and addrs is not None:
+                _, n, body = line.split(" ", 2)
+                addrs.setdefault(start + int(n), {})["T"] = tuple(int(x) for x in body.split("/"))
             elif line == "DONE":
                 finished = True
         if finished:
@@ -768,7 +821,7 @@ def classify(mo, io):
 
 def model_hist(ctx, exe, hists, fuel=20000):
     # the raw family runs on the number-level machine (coq/C16/NumOs.v: request nhist), everything else on History.v
-    reqs = ["%s %d %d %s" % ("nhist" if h[2].startswith("raw") else "hist", h[0], fuel, ";".join(h[1])) for h in hists]
+    reqs = ["%s %d %d %s" % ("nhist" if h[2].startswith("raw") else "ahist" if h[2].startswith("auto") else "hist", h[0], fuel, ";".join(h[1])) for h in hists]
     outs = ctx.run_model(exe, reqs)
     res = []
     for o in outs:
